@@ -556,10 +556,11 @@ theorem modelDataOk_lods (fh : FileHeader) (d : ModelData) (h : modelDataOk fh d
   exact ⟨h1, h2⟩
 
 theorem modelDataOk_frame (fh : FileHeader) (d : ModelData) (vo io vbs ibs : Arr3 UInt32)
+    (lc : UInt8)
     (L : List MeshLod) (h : modelDataOk fh d = true) (hl3 : L.length = 3)
     (hmid : ∀ l ∈ L, l.mid.length = 28) :
     modelDataOk { fh with vertexOffsets := vo, indexOffsets := io, vertexBufferSize := vbs,
-                          indexBufferSize := ibs } { d with lods := L } = true := by
+                          indexBufferSize := ibs, lodCount := lc } { d with lods := L } = true := by
   simp only [modelDataOk, Bool.and_eq_true, and_assoc] at h ⊢
   obtain ⟨h1, h2, h3, h4, h5, _, _, h8, h9, h10, h11, h12, h13, h14, h15, h16, h17, h18, h19, h20,
     h21, h22, h23, h24⟩ := h
@@ -630,10 +631,10 @@ theorem mapM_le {f g : α → R β} {l : List α} {out : List β} (h : l.mapM f 
 
 theorem write_parse_frame_core (a : AbstractModel) (h : WF a = true) (hcan : Canonical a = true)
     (v : View) (hv : view a = some v) (fh2 : FileHeader) (md2 : ModelData)
-    (lods2 : List (List Part)) (bn mn : List Bytes) (vo io vbs ibs : Arr3 UInt32)
+    (lods2 : List (List Part)) (bn mn : List Bytes) (vo io vbs ibs : Arr3 UInt32) (lc : UInt8)
     (L : List MeshLod)
     (hfh : fh2 = { fileHeader a with vertexOffsets := vo, indexOffsets := io,
-                                     vertexBufferSize := vbs, indexBufferSize := ibs })
+                                     vertexBufferSize := vbs, indexBufferSize := ibs, lodCount := lc })
     (harr : ∀ i, i < a.lodCount.toNat →
       io.get? i = (fileHeader a).indexOffsets.get? i ∧
       ibs.get? i = (fileHeader a).indexBufferSize.get? i)
@@ -678,7 +679,7 @@ theorem write_parse_frame_core (a : AbstractModel) (h : WF a = true) (hcan : Can
   have hmeshes : md2.meshes = (modelData a).meshes := by rw [hmd]
   have hL : md2.lods = L := by rw [hmd]
   have hok2 : modelDataOk fh2 md2 = true := by
-    rw [hfh, hmd]; exact modelDataOk_frame _ _ _ _ _ _ _ hok hl3 hmid
+    rw [hfh, hmd]; exact modelDataOk_frame _ _ _ _ _ _ _ _ hok hl3 hmid
   -- the two header blocks
   have hH1 : (wFileHeader (fileHeader a) ++ encModelData a.version (modelData a)).length =
       dataStart a := by
@@ -780,7 +781,8 @@ theorem write_parse_frame (a : AbstractModel) (h : WF a = true) (hcan : Canonica
     (v : View) (hv : view a = some v) (m : MDL)
     (hfh : m.fileHeader = { fileHeader a with
       vertexOffsets := m.fileHeader.vertexOffsets, indexOffsets := m.fileHeader.indexOffsets,
-      vertexBufferSize := m.fileHeader.vertexBufferSize, indexBufferSize := m.fileHeader.indexBufferSize })
+      vertexBufferSize := m.fileHeader.vertexBufferSize, indexBufferSize := m.fileHeader.indexBufferSize,
+      lodCount := m.fileHeader.lodCount })
     (harr : ∀ i, i < a.lodCount.toNat →
       m.fileHeader.vertexOffsets.get? i = (fileHeader a).vertexOffsets.get? i ∧
       m.fileHeader.indexOffsets.get? i = (fileHeader a).indexOffsets.get? i ∧
@@ -797,7 +799,7 @@ theorem write_parse_frame (a : AbstractModel) (h : WF a = true) (hcan : Canonica
           (m.fileHeader.vertexBufferSize.toList ++ m.fileHeader.indexBufferSize.toList),
         e ≤ buf.length) := by
   obtain ⟨buf, hw, hr, he⟩ := write_parse_frame_core a h hcan v hv m.fileHeader m.modelData m.lods
-    m.affectedBoneNames m.materialNames _ _ _ _ _ hfh
+    m.affectedBoneNames m.materialNames _ _ _ _ _ _ hfh
     (fun i hi => ⟨(harr i hi).2.1, (harr i hi).2.2.2⟩) hmd hl3 hmid hlods hparts
   exact ⟨buf, _, hw, hr, rfl, rfl, rfl, he⟩
 
